@@ -15,6 +15,7 @@ import (
 	"crypto/tls"
 	"crypto/x509"
 	"crypto/x509/pkix"
+	"database/sql"
 	"encoding/pem"
 	"fmt"
 	"io"
@@ -26,11 +27,14 @@ import (
 	"os"
 	"os/exec"
 	"path/filepath"
+	"strconv"
+	"strings"
 	"sync"
 	"syscall"
 	"time"
 
 	f_log "github.com/transparency-dev/formats/log"
+	"github.com/transparency-dev/witness/internal/feeder/bastion"
 	"golang.org/x/mod/sumdb/note"
 	"golang.org/x/net/http2"
 )
@@ -127,9 +131,11 @@ func scenarioBinary(t *traceWriter, rng *rand.Rand) {
 	_ = os.WriteFile(cfgFile, []byte(yaml), 0o600)
 	dbFile := filepath.Join(scratch, "witness.db")
 	api := freePort()
+	mAddr := ""
 	start := func() *binProc {
 		p := &binProc{out: &bytes.Buffer{}}
-		p.cmd = exec.Command(bin, "--listen", api, "--metrics_listen", freePort(), "--db_file", dbFile, "--private_key", wkL.skey,
+		mAddr = freePort()
+		p.cmd = exec.Command(bin, "--listen", api, "--metrics_listen", mAddr, "--db_file", dbFile, "--private_key", wkL.skey,
 			"--bastion_addr", ln.Addr().String(), "--bastion_key_path", bkeyFile, "--bastion_rate_limit", "100000", "--poll_interval", "50ms", "--rest_distro_url", dsrv.URL, "--logtostderr")
 		p.cmd.Env = append(os.Environ(), "VERIF_CONFIG_LOGS="+cfgFile, "SSL_CERT_FILE="+caFile, "SSL_CERT_DIR="+emptyDir)
 		p.cmd.Stdout, p.cmd.Stderr = p.out, p.out
@@ -260,12 +266,58 @@ func scenarioBinary(t *traceWriter, rng *rand.Rand) {
 		}
 	}
 	bs := &bastionSession{session: s, wvRec: rv, lss: lss, allowN: -1, e2e: 1, nomodel: 1}
-	bs.doReq = mkDo(cc)
+	// what the operator's dashboard must show for this process: per log, the requests that reached Update (the body parses,
+	// fits the connection's body cap and names a configured origin) and those answered 200
+	attempts, successes := map[string]int{}, map[string]int{}
+	counted := func(do func([]byte) (int, string, []byte, bool)) func([]byte) (int, string, []byte, bool) {
+		return func(body []byte) (int, string, []byte, bool) {
+			st, ct, rb, ok := do(body)
+			if ok && st != 429 && len(body) <= 16*1024 {
+				if _, _, cp, err := bastion.VerifParseBody(bytes.NewReader(body)); err == nil {
+					if i := bytes.IndexByte(cp, '\n'); i >= 0 {
+						id := f_log.ID(string(cp[:i]))
+						for _, l := range defs {
+							if l.id == id {
+								attempts[id]++
+								if st == 200 {
+									successes[id]++
+								}
+							}
+						}
+					}
+				}
+			}
+			return st, ct, rb, ok
+		}
+	}
+	bs.doReq = counted(mkDo(cc))
 	for i := 0; i < pick(30, 200) && !bs.dead; i++ {
 		bs.oneRequest(w, lss[rng.Intn(len(lss))])
 	}
 	// what the binary serves: the log's text under the log's signature and one valid signature by each of the two
 	// witness keys main() configures
+	// the process's own /metrics page against what went over the wire
+	if resp, err := (&http.Client{Timeout: 3 * time.Second}).Get("http://" + mAddr + "/metrics"); err == nil {
+		page, _ := io.ReadAll(resp.Body)
+		resp.Body.Close()
+		scrape := func(name, id string) int {
+			for _, ln := range strings.Split(string(page), "\n") {
+				if strings.HasPrefix(ln, name+"{") && strings.Contains(ln, "logid=\""+id+"\"") {
+					if f := strings.Fields(ln); len(f) == 2 {
+						v, _ := strconv.ParseFloat(f[1], 64)
+						return int(v)
+					}
+				}
+			}
+			return 0
+		}
+		for _, l := range defs {
+			t.line("BINM log=%s attempts=%d successes=%d => page_attempts=%d page_successes=%d", hx([]byte(l.id)), attempts[l.id], successes[l.id],
+				scrape("omniwitness_witness_update_request", l.id), scrape("omniwitness_witness_update_success", l.id))
+		}
+	} else {
+		t.line("BINM log=- attempts=0 successes=0 => page_attempts=-1 page_successes=-1")
+	}
 	held := map[string][]byte{}
 	for _, l := range defs {
 		st, b := get("/witness/v0/logs/" + l.id + "/checkpoint")
@@ -278,7 +330,7 @@ func scenarioBinary(t *traceWriter, rng *rand.Rand) {
 			t.line("BINC log=%s status=%d valid=%d", hx([]byte(l.id)), st, valid)
 		}
 	}
-	// SIGKILL, restart on the same database file: everything acknowledged is still served
+	// SIGKILL of the idle process, restart on the same database file: everything acknowledged is still served
 	_ = p.cmd.Process.Signal(syscall.SIGKILL)
 	_, _ = p.cmd.Process.Wait()
 	conn.Close()
@@ -326,6 +378,63 @@ func scenarioBinary(t *traceWriter, rng *rand.Rand) {
 	for i := 0; i < 12 && !bs.dead; i++ {
 		bs.oneRequest(w, lss[rng.Intn(len(lss))])
 	}
+	// second kill, of the restarted process (whose start-up found an existing database file)
+	held2 := map[string][]byte{}
+	for _, l := range defs {
+		if st, b := get("/witness/v0/logs/" + l.id + "/checkpoint"); st == 200 {
+			held2[l.id] = b
+		}
+	}
+	// the kill strikes INSIDE a commit: this process holds a read transaction on the database file, so the binary's next
+	// COMMIT waits for the exclusive lock with its rollback journal on disk; one more honest request is sent (it is
+	// never answered) and the binary is killed while it waits.  After the restart SQLite finds a hot journal: everything
+	// acknowledged before must still be served, whatever the start-up code of main() does around the database file.
+	journal := 0
+	if rdb, err := sql.Open("sqlite3", dbFile); err == nil {
+		if rtx, err := rdb.Begin(); err == nil {
+			if rows, err := rtx.Query("SELECT logID FROM chkpts"); err == nil {
+				for rows.Next() {
+				}
+				rows.Close()
+			}
+			ls := lss[0]
+			cur := ls.cur
+			if cur == nil {
+				cur = ls.branches[0]
+			}
+			stored, size := uint64(0), uint64(2)
+			if ls.has {
+				stored, size = ls.curSize, ls.curSize
+			}
+			body := writeBody(stored, [][]byte{}, signNote(cpText(ls.l.origin, size, cur.root(size), "in-flight-at-the-kill"), ls.l.key.signer))
+			go func() { _, _, _, _ = mkDo(cc2)(body) }()
+			for i := 0; i < 40 && journal == 0; i++ {
+				time.Sleep(50 * time.Millisecond)
+				if _, err := os.Stat(dbFile + "-journal"); err == nil {
+					journal = 1
+				}
+			}
+			_ = p2.cmd.Process.Signal(syscall.SIGKILL)
+			_, _ = p2.cmd.Process.Wait()
+			_ = rtx.Rollback()
+		}
+		rdb.Close()
+	}
+	t.line("BINK journal=%d", journal)
+	conn2.Close()
+	p3 := startUp()
+	defer func() { _ = p3.cmd.Process.Kill(); _, _ = p3.cmd.Process.Wait() }()
+	if !waitAPI() {
+		t.line("BIN phase=restart ok=0 msg=%s", hx([]byte("the HTTP API did not come up after the kill inside a commit: "+lastLines(p3.out.String(), 3))))
+		return
+	}
+	same2 := 1
+	for id, b := range held2 {
+		if st, nb := get("/witness/v0/logs/" + id + "/checkpoint"); st != 200 || !bytes.Equal(nb, b) {
+			same2 = 0
+		}
+	}
+	t.line("BIN phase=restart ok=%d msg=%s logs=%d", same2, hx([]byte("a checkpoint acknowledged before the kill inside a commit is not served after the restart")), len(held2))
 	s.t.line("END %s", s.id)
 	_ = f_log.ID
 }
